@@ -88,8 +88,11 @@ def _c12(failure, fd):
     return fd.get("site", "") in failure.get("obligation", "")
 
 
+KEYS = ["doctrans.pure_utils:location_within", "doctrans.parser_utils:ir_merge", "doctrans.parser_utils:_join_non_none"]
+
+
 def check(run, record_expected=False):
-    ded = deductive.run_deductive(run, ["doctrans.pure_utils:location_within", "doctrans.parser_utils:ir_merge", "doctrans.parser_utils:_join_non_none"],
+    ded = deductive.run_deductive(run, KEYS,
                                   only={("doctrans.pure_utils:location_within", "tokens=2")} | {(c.func, cs.name) for c in __import__("vf.contracts.parser_utils", fromlist=["CONTRACTS"]).CONTRACTS for cs in c.cases})
     if record_expected:
         return ded
